@@ -766,4 +766,16 @@ BENIGN = [
         (FE_CPP, "    void *ptr = internalMalloc(size);\n    if (!ptr) errno = ENOMEM;\n    return ptr;", "    void *ptr = internalMalloc(size);\n    if (ptr == nullptr) { errno = ENOMEM; }\n    return ptr;")]),
     dict(name='c17-b-calloc-early-return', prop='C17', edits=[
         (FE_CPP, "    if (result)\n        memset(result, 0, arraySize);\n    else\n        errno = ENOMEM;\n    return result;", "    if (!result) {\n        errno = ENOMEM;\n        return result;\n    }\n    memset(result, 0, arraySize);\n    return result;")]),
+    # renaming locals / parameters must never matter
+    dict(name='c11-b-rename-locals', prop='C11', edits=[('re', CV_H, r'\bold_size\b', 'observed_sz'), ('re', CV_H, r'\bnew_size\b', 'wanted_sz')]),
+    dict(name='c17-b-rename-locals', prop='C17', edits=[('re', FE_CPP, r'\blocalPublicFreeList\b', 'prevHead')]),
+    dict(name='c13-b-rename-locals', prop='C13', edits=[('re', AGG_H, r'\bres\b', 'head0'), ('re', CPQ_H, r'\btmp\b', 'cur_op')]),
+    dict(name='c12-b-rename-locals', prop='C12', edits=[('re', CUB_H, r'\bnew_node\b', 'nn'), ('re', CUB_H, r'\bprev_node\b', 'pn'), ('re', CSL_H, r'\bnew_node\b', 'nn')]),
+    dict(name='c19-b-rename-locals', prop='C19', edits=[('re', CO_H, r'\bexpected\b', 'seen')]),
+    dict(name='c16-b-rename-locals', prop='C16', edits=[('re', AS_CPP, r'\bomit\b', 'skip_it'), ('re', AR_CPP, r'\bindex2\b', 'idx_b')]),
+    dict(name='c01-b-rename-locals', prop='C01', edits=[('re', AS_CPP, r'\bvictim_pool\b', 'vp'), ('re', AS_CPP, r'\btasks_omitted\b', 'skipped')]),
+    dict(name='c08-b-rename-locals', prop='C08', edits=[('re', 'src/tbb/rtm_mutex.cpp', r'\bonly_speculate\b', 'spec_only'), ('re', QRW_CPP, r'\bpredecessor\b', 'pred0')]),
+    dict(name='c10-b-rename-locals', prop='C10', edits=[('re', CHM_H, r'\breturn_value\b', 'rv'), ('re', CHM_H, r'\berase_node\b', 'victim')]),
+    dict(name='c02-b-rename-locals', prop='C02', edits=[('re', CQ_H, r'\bpresent\b', 'got_one')]),
+    dict(name='c18-b-rename-locals', prop='C18', edits=[('re', FE_CPP, r'\bmemptr\b', 'outp'), ('re', FE_CPP, r'\bunaligned\b', 'raw0')]),
 ]
